@@ -5,3 +5,8 @@ import Woodpile.Model.ReadN
 import Woodpile.Proofs.HcobsSpec
 import Woodpile.Props.C02
 import Woodpile.Props.C07
+import Woodpile.Proofs.PipeLemmas
+import Woodpile.Proofs.HcobsDec
+import Woodpile.Proofs.HcobsEnc
+import Woodpile.Props.C01
+import Woodpile.Props.C09
